@@ -39,8 +39,23 @@ def gen_cases(tier, seed):
         if i % 4 == 1 and nsh >= 2:  # nearly linearly dependent: shell 1 = shell 0 moved by 1e-3 bohr
             shells[1] = dict(shells[0], c=[shells[0]["c"][0] + 1e-3, shells[0]["c"][1], shells[0]["c"][2]], t=shells[1]["t"])
             classes.append("near-dependent")
+        if i % 4 == 3 and nsh >= 2:  # a displaced copy 1e-7 .. 3e-5 bohr away, a few bohr from the origin
+            dlt = float(rng.choice([1e-7, 1e-6, 1e-5, 3e-5]))
+            u = rng.normal(size=3)
+            u /= np.linalg.norm(u)
+            off = rng.normal(size=3) * 4.0
+            shells[0]["c"] = [float(v) for v in np.array(shells[0]["c"]) + off]
+            shells[1] = dict(shells[0], c=[float(v) for v in np.array(shells[0]["c"]) + u * dlt], t=shells[1]["t"])
+            classes.append("near-dependent-displaced")
         nq = int(rng.integers(1, 5))
         pts, _ = bases.rand_points(rng, shells, nq)
+        if i % 2 == 0:  # charges in the Boys window of the highest-l shell: (a+b)|P-C|^2 = 15 .. 45
+            hs = max(shells, key=lambda s_: s_["l"])
+            for k in range(len(pts)):
+                u = rng.normal(size=3)
+                u /= np.linalg.norm(u)
+                pts[k] = [float(v) for v in np.array(hs["c"]) + u * np.sqrt(float(rng.uniform(15, 45)) / (2 * max(hs["e"])))]
+            classes.append("q:boys-window")
         q = [float(x) for x in np.exp(rng.uniform(np.log(0.1), np.log(100), size=nq))]
         cases.append({"shells": shells, "points": pts, "charges": q, "eri": eri, "classes": classes + ["eri" if eri else "1e", "nsh:%d" % nsh, "types:" + "".join(tp)],
                       "cost": (sum(bases.nfunc(s) for s in shells) ** 4 / 20 if eri else nsh * nsh * 10)})
